@@ -30,7 +30,11 @@ RULE = ("histories = one cell space + operations on it. Spaces: OrthogonalMooreG
         "numpy-scalar / float / bool-int spellings of the arguments, `.neighborhood`, `place` (CellAgent of one of three classes enters a "
         "cell), `agents` (len / cells / agents / [cell] of the returned CellCollection, after abandoned iterators); radii 0, -1, "
         "1..max(dims)+1, occasionally 40 and - one oracle-only history - 256..258 on a 262-cell path; each (cell, radius) asked with "
-        "both flags, shuffled, some queries repeated at the end. non-trivial = build + at least 2 queries with a non-empty answer; "
+        "both flags, shuffled, some queries repeated at the end. SCALE stream (6 large spaces per quick run, implementation + oracle "
+        "only; two medium ones also through the model). USER-CODE stream (40 per quick run, implementation + oracle only): user Cell "
+        "subclasses (falsy while empty + iterable, class-level defaults, extra constructor argument) and user subclasses of every space "
+        "class (docstring-only, extra argument, overridden _connect_cells calling super), agents placed, the space deep-copied / pickled "
+        "mid-history, six public entry points for the direct neighbourhood must agree at build and after every copy. non-trivial = build + at least 2 queries with a non-empty answer; "
         "distinct = SHA1 of the history")
 TRUSTED_BASE = [
     "Coq 8.16.1 kernel (coqc); vm_compute for finite facts over the regenerated tables / translated code and for evaluating the model in the correspondence",
@@ -378,6 +382,8 @@ def gen_cases(rng, tier):
         n = rng.choice([2, 3, 4, 5, 6, 7, 8])
         pts = _rand_float_points(rng, n)
         cases.append({"space": {"kind": "vorf", "pts": pts}, "ops": [["build"]] + _queries(rng, len(pts), 3, rng.randint(1, 3))})
+    # 6. USER-CODE stream
+    cases += _user_cases(rng, tier, 40 if quick else 600)
     # 5. SCALE stream
     cases += _scale_cases(rng, tier)
     if not quick:
@@ -464,6 +470,44 @@ def _scale_cases(rng, tier, broken=False):
     return out
 
 
+def _user_cases(rng, tier, n):
+    """USER-CODE stream (harness/USERCODE_NOTE.md, part B): every space class built with user Cell subclasses (falsy while
+    empty + iterable, class-level defaults + extra slot, extra constructor argument) and as user subclasses of the space
+    classes (docstring-only, extra constructor argument, overridden _connect_cells calling super), all dimensions incl. the
+    2-D paths and hex; agents placed, then the space is deep-copied / pickled mid-history and the history continues on the
+    copy; at `build` and after every copy the public entry points for the direct neighbourhood must agree.
+    Implementation + oracle only."""
+    out = []
+    shapes = [("moore", (5,), True), ("vn", (4,), False), ("moore", (3, 4), True), ("vn", (4, 3), False), ("hex", (3, 4), True),
+              ("hex", (4, 3), False), ("vn", (2, 3, 3), True), ("moore", (3, 2, 2), False), ("moore", (2, 2, 1, 3), True),
+              ("vn", (1, 3, 2, 2), True), ("net", None, None), ("dnet", None, None), ("vor", None, None)]
+    for _ in range(n):
+        kind, dims, torus = rng.choice(shapes)
+        if kind in ("net", "dnet"):
+            c = _net_case(rng, rng.randint(3, 7), directed=(kind == "dnet"))
+            sp, ncells = c["space"], c["space"]["n"]
+        elif kind == "vor":
+            pts = _rand_points(rng, rng.randint(3, 7), 12)
+            sp, ncells = {"kind": "vor", "pts": pts}, len(pts)
+        else:
+            sp, ncells = {"kind": kind, "dims": list(dims), "torus": torus}, _prod(dims)
+        sp["user"] = {"cell": rng.choice([None, "lenagents", "lenagents", "defaults", "ctorarg"]),
+                      "space": rng.choice([None, "doc", "extra", "override"])}
+        rmax = 3
+        ops = [["build"]]
+        for aid in range(1, rng.randint(2, 4)):
+            ops.append(["place", aid, rng.randrange(ncells)])
+        ops += _queries(rng, ncells, rmax, rng.randint(1, 2))
+        ops.append(["copy", rng.choice(["deepcopy", "pickle"])])
+        ops += _queries(rng, ncells, rmax, rng.randint(1, 2))
+        if rng.random() < 0.4:
+            ops += [["place", 1, rng.randrange(ncells)], ["copy", rng.choice(["deepcopy", "pickle"])]]
+            c0 = rng.randrange(ncells)
+            ops += [["agents", 0, c0, 2, True], ["nbhd", 1, c0, 2, False]]
+        out.append({"space": sp, "oracle_only": True, "ops": ops})
+    return out
+
+
 def _rand_float_points(rng, n):
     """binary64 points in [0, 10)^2 with a margin from every degeneracy: each point is farther than 0.05 from the line
     through any two others, |in-circle determinant| > 0.5 for every four"""
@@ -493,6 +537,7 @@ def enumerate_cases(tier, broken=False):
     rng = _random.Random(4242)
     for _ in range(6 if broken else 2):
         yield from _scale_cases(rng, tier, broken=True)
+    yield from _user_cases(rng, tier, 400 if broken else 100)
     vecs = _dim_vectors(4, 4, 64) if tier == "thorough" else _dim_vectors(3, 3, 27)
     for dims in vecs:
         for kind in ("moore", "vn"):
@@ -516,6 +561,84 @@ def enumerate_cases(tier, broken=False):
 def _labels(n):
     """non-integer node ids for the labelled-network stream: strings and tuples"""
     return [f"n{i}" if i % 2 == 0 else (i, "x") for i in range(n)]
+
+
+_UC = {}
+
+
+def _user_classes():
+    """user subclasses as the library intends them, created once per process and registered as module globals
+    (pickle / copyreg look classes up by module + qualified name)"""
+    if "spaces" in _UC:
+        return _UC
+    from mesa.discrete_space import Cell, HexGrid, Network, OrthogonalMooreGrid, OrthogonalVonNeumannGrid, VoronoiGrid
+
+    class UCLenAgents(Cell):
+        """falsy while empty, iterable: len() / iter() over the agents in the cell"""
+
+        def __len__(self):
+            return len(self._agents)
+
+        def __iter__(self):
+            return iter(self._agents)
+
+    class UCDefaults(Cell):
+        """class-level defaults (a subclass with its own __slots__ cannot be copied at HEAD: Cell.__getstate__ reads
+        self.__slots__, i.e. only the subclass's - reported as a C19-type finding, not generated here)"""
+
+        kind = "soil"
+        fertility = 3
+
+    class UCCtorArg(Cell):
+        """extra constructor argument with a default"""
+
+        def __init__(self, coordinate, capacity=None, random=None, flavour="plain"):
+            super().__init__(coordinate, capacity, random)
+            self.flavour = flavour
+
+    from mesa.discrete_space import CellAgent
+
+    class UA2(CellAgent):          # truth value False
+        def __bool__(self):
+            return False
+
+    class UA3(UA2):                # subclass of a subclass, len() == 0 and an attribute the others lack
+        extra = 1
+
+        def __len__(self):
+            return 0
+
+    _UC["agents"] = (UA2, UA3)
+    class UCFalsy(Cell):
+        def __bool__(self):
+            return False
+
+        def __len__(self):
+            return 0
+
+    cells = {"lenagents": UCLenAgents, "defaults": UCDefaults, "ctorarg": UCCtorArg, "falsy": UCFalsy}
+    spaces = {}
+    for base in (OrthogonalMooreGrid, OrthogonalVonNeumannGrid, HexGrid, Network, VoronoiGrid):
+        doc = type(f"US_doc_{base.__name__}", (base,), {"__doc__": "A docstring-only subclass."})
+
+        def _init(self, first, *a, tag="t", _base=base, **kw):
+            self.tag = tag
+            _base.__init__(self, first, *a, **kw)
+
+        extra = type(f"US_extra_{base.__name__}", (base,), {"__init__": _init})
+
+        def _cc(self, _base=base):
+            self.connect_calls = getattr(self, "connect_calls", 0) + 1
+            _base._connect_cells(self)
+
+        over = type(f"US_override_{base.__name__}", (base,), {"_connect_cells": _cc})
+        spaces[base.__name__] = {"doc": doc, "extra": extra, "override": over}
+    _UC["cells"], _UC["spaces"] = cells, spaces
+    for k in list(cells.values()) + [UA2, UA3] + [c for d in spaces.values() for c in d.values()]:
+        k.__module__ = __name__
+        k.__qualname__ = k.__name__
+        globals()[k.__name__] = k
+    return _UC
 
 
 def _space_args(sp):
@@ -552,29 +675,26 @@ def _make_space(sp, args=None):
     kw = {}
     if sp.get("falsy"):
         # cells whose truth value is False and whose len() is 0: nothing in the statement depends on bool(cell)
-        class FalsyCell(Cell):
-            def __bool__(self):
-                return False
-
-            def __len__(self):
-                return 0
-
-        kw["cell_klass"] = FalsyCell
+        kw["cell_klass"] = _user_classes()["cells"]["falsy"]
     rnd = _random.Random(1)
+    user = sp.get("user") or {}
+    classes = {"moore": OrthogonalMooreGrid, "vn": OrthogonalVonNeumannGrid, "hex": HexGrid, "net": Network, "dnet": Network,
+               "netl": Network, "vor": VoronoiGrid, "vorf": VoronoiGrid}
+    k = sp["kind"]
+    klass = classes[k]
+    if user:
+        uc = _user_classes()
+        if user.get("cell"):
+            kw["cell_klass"] = uc["cells"][user["cell"]]
+        if user.get("space"):
+            klass = uc["spaces"][klass.__name__][user["space"]]
+            if user["space"] == "extra":
+                kw["tag"] = "user"
     with warnings.catch_warnings():
         warnings.simplefilter("ignore")
-        k = sp["kind"]
-        if k == "moore":
-            return OrthogonalMooreGrid(args, torus=sp["torus"], random=rnd, **kw)
-        if k == "vn":
-            return OrthogonalVonNeumannGrid(args, torus=sp["torus"], random=rnd, **kw)
-        if k == "hex":
-            return HexGrid(args, torus=sp["torus"], random=rnd, **kw)
-        if k in ("net", "dnet", "netl"):
-            return Network(args, random=rnd, **kw)
-        if k in ("vor", "vorf"):
-            return VoronoiGrid(args, random=rnd, **kw)
-    raise ValueError(k)
+        if k in ("moore", "vn", "hex"):
+            return klass(args, torus=sp["torus"], random=rnd, **kw)
+        return klass(args, random=rnd, **kw)
 
 
 _CLS = {"moore": "OrthogonalMooreGrid", "vn": "OrthogonalVonNeumannGrid", "hex": "HexGrid", "net": "Network",
@@ -749,6 +869,30 @@ def _model_affordable(case, conn):
     return cost <= 200000
 
 
+def _entry_points(cls, sp, cells, idx, failures, opi):
+    """public entry points that must name the same direct neighbourhood"""
+    from mesa.discrete_space import CellCollection
+
+    for i, c in enumerate(cells[:80]):
+        base = {idx.get(id(v), -1) for v in c.connections.values()} - {i}
+        forms = {
+            "cell.neighborhood": c.neighborhood.cells,
+            "get_neighborhood(radius=1)": c.get_neighborhood(radius=1).cells,
+            "get_neighborhood(1, False)": c.get_neighborhood(1, False).cells,
+            "iter(get_neighborhood())": list(iter(c.get_neighborhood())),
+            "get_neighborhood(1, True) minus the cell": [x for x in c.get_neighborhood(1, True).cells if x is not c],
+            "CellCollection(list of connections)": CellCollection([v for v in c.connections.values() if v is not c],
+                                                                  random=_random.Random(1)).cells,
+        }
+        for name, got in forms.items():
+            g = [idx.get(id(x), -1) for x in got]
+            if set(g) != base or len(set(g)) != len(g):
+                failures.append({"key": f"C07/{cls}/entry-points/disagree", "op": opi,
+                                 "what": f"{cls} {_descr(sp)} {sp.get('user') or ''}: cell #{i} is connected to {sorted(base)} "
+                                         f"(connections.values() without itself) but {name} gives {sorted(g)}"})
+                return
+
+
 QUERY_CPU_BUDGET = 2.0   # seconds of CPU time of the worker for ONE neighbourhood query
 
 
@@ -827,6 +971,8 @@ def run_impl(case):
                     _check_connections(sp, space, cells, idx, failures, opi)
                     # the SAME argument object handed to a second space: the caller's object is not modified, the twin has the
                     # same connections, and the first space is untouched (nothing is shared through class / module state)
+                    if sp.get("user") is not None:
+                        _entry_points(cls, sp, cells, idx, failures, opi)
                     twin = _make_space(sp, args)
                     tcells = list(twin._cells.values())
                     tidx = {id(c): i for i, c in enumerate(tcells)}
@@ -840,6 +986,35 @@ def run_impl(case):
                                          "what": f"{cls} {_descr(sp)}: a second space built from the same argument object has different "
                                                  f"connections, or building it changed the first one"})
                 built = True
+                continue
+            if kind == "copy":
+                # user-code stream: continue on a deepcopy / pickle round trip of the whole space (with its agents)
+                import copy as _copy
+                import pickle as _pickle
+                import warnings as _w
+
+                ops_for_model.append(op)
+                with _w.catch_warnings():
+                    _w.simplefilter("ignore")
+                    space = _copy.deepcopy(space) if op[1] == "deepcopy" else _pickle.loads(_pickle.dumps(space))
+                cells = list(space._cells.values())
+                idx = {id(c): i for i, c in enumerate(cells)}
+                conn = [[idx.get(id(v), -1) for v in c.connections.values()] for c in cells]
+                uid = {a.unique_id: aid for aid, a in agents.items()}
+                agents, agent_id = {}, {}
+                for c in cells:
+                    for a in c.agents:
+                        if a.unique_id in uid:
+                            agents[uid[a.unique_id]] = a
+                            agent_id[id(a)] = uid[a.unique_id]
+                got_loc = {agent_id[id(a)]: i for i, c in enumerate(cells) for a in c.agents if id(a) in agent_id}
+                obs.append([len(cells)] + [x for kv in sorted(got_loc.items()) for x in kv])
+                if got_loc != loc:
+                    failures.append({"key": f"C07/{cls}/copy/agents-moved", "op": opi,
+                                     "what": f"{cls} {_descr(sp)}: after {op[1]} the agents are in cells {got_loc}, before: {loc}"})
+                if built:
+                    _check_connections(sp, space, cells, idx, failures, opi)
+                    _entry_points(cls, sp, cells, idx, failures, opi)
                 continue
             if kind == "cert":
                 # the triangulation the implementation built, exported for validation inside Coq
@@ -878,17 +1053,8 @@ def run_impl(case):
                 if aid not in agents:
                     from mesa.discrete_space import CellAgent
 
-                    class A2(CellAgent):          # truth value False
-                        def __bool__(self):
-                            return False
-
-                    class A3(A2):                 # subclass of a subclass, len() == 0 and an attribute the others lack
-                        extra = 1
-
-                        def __len__(self):
-                            return 0
-
-                    agents[aid] = (CellAgent, A2, A3)[aid % 3](model)
+                    uc = _user_classes()
+                    agents[aid] = (CellAgent, uc["agents"][0], uc["agents"][1])[aid % 3](model)
                     agent_id[id(agents[aid])] = aid
                 agents[aid].cell = cell
                 loc[aid] = c
@@ -1020,7 +1186,7 @@ def run_impl(case):
             failures.append({"key": f"C07/{cls}/{kind}/unexpected-exception", "op": opi,
                              "what": f"{op} raised {type(e).__name__}: {e}"})
     return {"obs": obs, "failures": failures, "ops_for_model": ops_for_model, "model": _model_affordable(case, conn) and not overrun and not case.get("oracle_only")
-            and sp["kind"] not in ("netl", "vorf")}
+            and sp["kind"] not in ("netl", "vorf") and sp.get("user") is None}
 
 
 # ================================================================== model side
@@ -1051,6 +1217,8 @@ def coq_case(case):
         elif op[0] == "cert":
             tris = op[1] if len(op) > 1 else []
             ops.append("Cert " + L.lst([f"({L.z(t[0])}, {L.z(t[1])}, {L.z(t[2])})" for t in tris]))
+        elif op[0] == "copy":
+            continue
         elif op[0] == "place":
             ops.append(f"Place {L.z(op[1])} {L.z(op[2])}")
         elif op[0] == "agents":
